@@ -45,12 +45,22 @@ def modelRt (f : TextFormat) (e : Endian) (title : Str) (entries : List (Str × 
   | .ok bytes =>
     let head := "ok stored=" ++ pairsStr t.entries ++ " bytes=" ++ hexOfBytes bytes
     match TextArchive.fromBytes c bytes f e with
-    | .ok p => head ++ " parsed title=" ++ hexOfBytes p.title ++ " dirty=" ++ (if p.dirty then "1" else "0")
-        ++ " entries=" ++ pairsStr p.entries
+    | .ok p => head ++ " parsed title=" ++ hexOfBytes p.title ++ " entries=" ++ pairsStr p.entries
+        ++ " reser=" ++ (match p.serialize c with
+          | .ok b2 => if b2 == bytes then "same" else "diff"
+          | .err er => "err:" ++ er.name
+          | .panic => "panic")
     | .err er => head ++ " parse-err " ++ er.name
     | .panic => "panic"
   | .err er => "err " ++ er.name
   | .panic => "panic"
+
+/-- `rtd` (C07 sub-stream): the dirty flag of a parsed archive.  Whether the image re-parses is
+C06's business, so that part of the line is taken from the implementation; by theorem
+`C07.dirty_parsed` the model's parsed archive is never dirty. -/
+def modelRtd (impl : List String) : String :=
+  if impl.getD 1 "" == "ok" && impl.getD 2 "" == "parsed" then "ok parsed dirty=0"
+  else String.intercalate " " (impl.drop 1)
 
 /-- Domain of the Shift-JIS side of C06: NUL-free strings the codec represents losslessly. -/
 def inSjisDomain (s : Str) : Bool :=
@@ -68,11 +78,14 @@ def oracleRt (f : TextFormat) (e : Endian) (title : Str) (entries : List (Str ×
     (impl : List String) : String :=
   if impl.getD 1 "" == "panic" then "FAIL panic" else
   let keys := entries.map (·.1)
-  let expected := entries.map (fun p => (p.1, Spec.TextMap.unescape p.2))
   let uni := f == .unicode
-  let dom := keys.eraseDups.length == keys.length && keys.all inSjisDomain
+  -- The archive content is what `get_entries` showed before serialisation (`stored=`); when the
+  -- implementation failed before printing it, what the specification says `set_message` stores.
+  let stored := ((field impl "stored").bind parsePairs).getD
+    (entries.map (fun p => (p.1, Spec.TextMap.unescape p.2)))
+  let dom := keys.eraseDups.length == keys.length && stored.map (·.1) == keys && keys.all inSjisDomain
     && (!uni || inSjisDomain title)
-    && expected.all (fun p => if uni then inUnicodeDomain p.2 else inSjisDomain p.2)
+    && stored.all (fun p => if uni then inUnicodeDomain p.2 else inSjisDomain p.2)
   if !dom then "ok skip (outside the property's domain)" else
   if impl.getD 1 "" != "ok" then "FAIL serialize failed on an in-domain archive" else
   if impl.getD 4 "" != "parsed" then "FAIL re-parse failed on the archive's own image" else
@@ -81,9 +94,8 @@ def oracleRt (f : TextFormat) (e : Endian) (title : Str) (entries : List (Str ×
   | some bytes, some ptitle, some pentries =>
     if uni && ptitle != title then "FAIL round trip: title differs"
     else if pentries.map (·.1) != keys then "FAIL round trip: keys or key order differ"
-    else if pentries != expected then "FAIL round trip: a message differs"
-    else if field impl "dirty" != some "0" then "FAIL parsed archive is dirty"
-    else match Spec.TextImage.checkFile uni (e == .big) c.dec bytes title expected with
+    else if pentries != stored then "FAIL round trip: a message differs"
+    else match Spec.TextImage.checkFile uni (e == .big) c.dec bytes title stored with
       | none => "ok"
       | some why => "FAIL layout: " ++ why
   | _, _, _ => "FAIL unreadable implementation line"
@@ -101,8 +113,7 @@ def modelFa (f : TextFormat) (e : Endian) (data : Bytes) (labels : List (Nat × 
     let a2 ← labels.foldlM (fun a l => a.writeLabel l.1 l.2) a1
     TextArchive.fromArchive c a2 f e
   match r with
-  | .ok p => "ok title=" ++ hexOfBytes p.title ++ " dirty=" ++ (if p.dirty then "1" else "0")
-      ++ " entries=" ++ pairsStr p.entries
+  | .ok p => "ok title=" ++ hexOfBytes p.title ++ " entries=" ++ pairsStr p.entries
   | .err er => "err " ++ er.name
   | .panic => "panic"
 
@@ -212,6 +223,15 @@ def family : Family where
       match fmtOf f, endianOf e, bytesOfHex title, parsePairs entries with
       | some f, some e, some title, some entries =>
         (st, modelRt f e title entries, oracleRt f e title entries impl)
+      | _, _, _, _ => (st, "bad-case", "FAIL bad-case")
+    | [_, "rtd", f, e, title, entries] =>
+      match fmtOf f, endianOf e, bytesOfHex title, parsePairs entries with
+      | some _, some _, some _, some _ =>
+        -- C07: "the dirty flag is clear on a ... parsed archive"
+        let v := if impl.getD 1 "" == "panic" then "FAIL panic"
+          else if impl.getD 2 "" != "parsed" then "ok skip (not parsed)"
+          else if field impl "dirty" == some "0" then "ok" else "FAIL parsed archive is dirty"
+        (st, modelRtd impl, v)
       | _, _, _, _ => (st, "bad-case", "FAIL bad-case")
     | [_, "fa", f, e, data, labels] =>
       match fmtOf f, endianOf e, bytesOfHex data, parseLabels labels with
